@@ -989,3 +989,99 @@ Proof.
   - intros H dc. destruct (length d =? 32)%nat eqn:E; [apply Nat.eqb_eq in E; contradiction|].
     destruct (negb dc && _); reflexivity.
 Qed.
+
+(* ---- presentations of field values, constructor forms ------------------------------------------------------ *)
+Section Presentations.
+Variables TxV BlockV HdrV : Type.
+Variable stream_T : TxV -> bytes.
+Variable stream_B : BlockV -> bytes.
+Variable stream_z : HdrV -> bytes.
+Variable header_of : BlockV -> HdrV.
+Notation pyv := (pyval TxV BlockV HdrV).
+Notation sc := (stream_codec stream_T stream_B stream_z header_of).
+
+Definition int_codec (k : codec) : Prop := k = CI \/ k = Ch \/ k = CL \/ k = CQ \/ k = C1 \/ k = C6 \/ k = CO.
+(* a bool where an integer is declared (True/False are ints in Python) packs as 1/0 *)
+Lemma bool_as_int k (b : bool) : int_codec k -> sc k (VBool b) = sc k (VInt (if b then 1 else 0)%Z).
+Proof. intros [->|[->|[->|[->|[->|[->| ->]]]]]]; destruct b; reflexivity. Qed.
+(* an integer 0/1 where a boolean is declared packs as the boolean *)
+Lemma int_as_bool (b : bool) : sc Cb (VInt (if b then 1 else 0)%Z) = sc Cb (VBool b) /\
+                               sc CO (VInt (if b then 1 else 0)%Z) = sc CO (VBool b).
+Proof. destruct b; split; reflexivity. Qed.
+(* bytes where an array is declared iterate as their integers *)
+Lemma bytes_as_array rest (b : bytes) :
+  pack_field stream_T stream_B stream_z header_of (lbracket :: rest) (VBytes b) =
+  pack_field stream_T stream_B stream_z header_of (lbracket :: rest) (VTuple (map (fun x => VInt (b2z x)) b)).
+Proof. unfold pack_field. change (byte_eqb lbracket lbracket) with true. cbn [as_seq bind]. now rewrite map_length. Qed.
+(* 1-tuples (or 1-lists) around array elements are the bare elements *)
+Lemma one_tuple_as_bare sub (e : pyv) r : match e with VTuple _ => False | _ => True end ->
+  pack_elems stream_T stream_B stream_z header_of sub (VTuple [e] :: r) =
+  pack_elems stream_T stream_B stream_z header_of sub (e :: r).
+Proof. intros H. destruct e; try contradiction; reflexivity. Qed.
+End Presentations.
+
+(* the 4-byte IPv4 form and its 16-byte IPv4-mapped twin are the same object *)
+Lemma peer_address_ipv4_twin {TxV BlockV HdrV} (s : Z) (ip : bytes) (p : Z) : length ip = 4%nat ->
+  @mk_addr TxV BlockV HdrV ip4_header s ip p = @mk_addr TxV BlockV HdrV ip4_header s (ip4_header ++ ip) p.
+Proof.
+  intros H. destruct (peer_address_forms (TxV:=TxV) (BlockV:=BlockV) (HdrV:=HdrV) s ip p) as [H4 _].
+  destruct (H4 H) as [-> L].
+  destruct (peer_address_forms (TxV:=TxV) (BlockV:=BlockV) (HdrV:=HdrV) s (ip4_header ++ ip) p) as [_ [H16 _]].
+  now rewrite (H16 L).
+Qed.
+
+Section Constructed.
+Variables TxV BlockV HdrV : Type.
+Variable parse_T : parser TxV.
+Variable stream_T : TxV -> bytes.
+Variable parse_B : parser BlockV.
+Variable stream_B : BlockV -> bytes.
+Variable parse_z : parser HdrV.
+Variable stream_z : HdrV -> bytes.
+Variable header_of : BlockV -> HdrV.
+Hypothesis frame_T : forall v rest, parse_T (stream_T v ++ rest) = Ret (v, rest).
+Hypothesis frame_B : forall v rest, parse_B (stream_B v ++ rest) = Ret (v, rest).
+Hypothesis frame_z : forall v rest, parse_z (stream_z v ++ rest) = Ret (v, rest).
+Notation sc := (stream_codec stream_T stream_B stream_z header_of).
+Notation pc := (parse_codec parse_T parse_B parse_z ip4_header inv_checked_types).
+(* every accepted constructor form of a PeerAddress (4 or 16 address bytes) packs and parses back to an EQUAL object *)
+Lemma peer_address_constructed_roundtrip (s : Z) (ip : bytes) (p : Z) rest :
+  (0 <= s < 2 ^ 64)%Z -> (0 <= p < 2 ^ 16)%Z -> length ip = 4%nat \/ length ip = 16%nat ->
+  exists a bs, mk_addr ip4_header s ip p = Ret a /\ sc CA a = Ret bs /\ pc CA (bs ++ rest) = Ret (a, rest).
+Proof.
+  intros Hs Hp Hl.
+  destruct (peer_address_forms (TxV:=TxV) (BlockV:=BlockV) (HdrV:=HdrV) s ip p) as [H4 [H16 _]].
+  destruct Hl as [Hl|Hl].
+  - destruct (H4 Hl) as [E L]. exists (VAddr s (ip4_header ++ ip) p). eexists. split; [exact E|].
+    exact (codec_frame TxV BlockV HdrV parse_T stream_T parse_B stream_B parse_z stream_z header_of ip4_header
+             inv_checked_types frame_T frame_B frame_z CA (VAddr s (ip4_header ++ ip) p) rest (conj Hs (conj L Hp))
+             ltac:(intros; discriminate)).
+  - exists (VAddr s ip p). eexists. split; [exact (H16 Hl)|].
+    exact (codec_frame TxV BlockV HdrV parse_T stream_T parse_B stream_B parse_z stream_z header_of ip4_header
+             inv_checked_types frame_T frame_B frame_z CA (VAddr s ip p) rest (conj Hs (conj Hl Hp))
+             ltac:(intros; discriminate)).
+Qed.
+(* ... and so does an InvItem, checked or unchecked constructor *)
+Lemma inv_item_constructed_roundtrip (t : Z) (d : bytes) (dc : bool) a rest :
+  (0 <= t < 2 ^ 32)%Z -> mk_inv inv_checked_types t d dc = Ret a ->
+  exists bs, sc Cv a = Ret bs /\ pc Cv (bs ++ rest) = Ret (a, rest).
+Proof.
+  intros Ht E. unfold mk_inv in E.
+  destruct (negb dc && _); [discriminate|]. destruct (length d =? 32)%nat eqn:L; [|discriminate].
+  injection E as <-. apply Nat.eqb_eq in L. eexists.
+  exact (codec_frame TxV BlockV HdrV parse_T stream_T parse_B stream_B parse_z stream_z header_of ip4_header
+           inv_checked_types frame_T frame_B frame_z Cv (VInv t d) rest (conj Ht L) ltac:(intros; discriminate)).
+Qed.
+End Constructed.
+
+(* a variable-length codec (unary count, as a stand-in for a header with a length-prefixed tail such as Bitcoin
+   Gold's) satisfies the frame hypothesis: the theorems are not tied to 80-byte headers *)
+Fixpoint unary_parse (s : bytes) : outcome (nat * bytes) :=
+  match s with
+  | [] => Raise E_STRUCT
+  | b :: r => if byte_eqb b x00 then Ret (O, r)
+              else match unary_parse r with Ret (n, r') => Ret (S n, r') | Raise e => Raise e | OutOfFuel => OutOfFuel end
+  end.
+Definition unary_stream (n : nat) : bytes := repeatb x01 n ++ [x00].
+Lemma unary_frame n rest : unary_parse (unary_stream n ++ rest) = Ret (n, rest).
+Proof. unfold unary_stream. induction n as [|n IH]; cbn; [reflexivity|]. cbn in IH. now rewrite IH. Qed.
